@@ -239,6 +239,77 @@ pub fn run(cli: &Cli, rep: &Report) {
             }
         }
     }
+    // concatenated streams with differing check types and stream padding, both directions: every ordered pair of checks
+    // x padding {0, 4, 8} between and after the streams, plus three streams with an empty one in the middle
+    let mut concat_cases = 0u64;
+    {
+        let a = gen::build(&[gen::Seg::C(700)], cli.seed);
+        let b = gen::build(&[gen::Seg::X(900)], cli.seed);
+        let o = Opts::small();
+        let checks = [0u8, 1, 4, 10];
+        let mut plans: Vec<(Vec<(u8, usize)>, usize)> = vec![]; // ((check, which input: 0=a 1=b 2=empty) per stream, padding)
+        for c1 in checks {
+            for c2 in checks {
+                for pad in [0usize, 4, 8] {
+                    plans.push((vec![(c1, 0), (c2, 1)], pad));
+                }
+                plans.push((vec![(c1, 0), (c2, 2), (c1, 1)], 4));
+                plans.push((vec![(c1, 2), (c2, 0)], 0));
+            }
+        }
+        for (streams, pad) in plans {
+            for dir_in in [true, false] {
+                let desc = format!("C03|concat|{}|{}|pad{pad}", if dir_in { "in" } else { "out" }, streams.iter().map(|(c, w)| format!("c{c}:{}", ["a", "b", "empty"][*w])).collect::<Vec<_>>().join("+"));
+                concat_cases += 1;
+                if !cli.selected(&desc) {
+                    continue;
+                }
+                rep.add("evaluations", 1);
+                let mut file = vec![];
+                let mut content = vec![];
+                let mut refused = false;
+                for (c, w) in &streams {
+                    let data: &[u8] = match w { 0 => &a, 1 => &b, _ => &[] };
+                    let part = if dir_in {
+                        refimpl::xz_encode(data, &o, *c, &[])
+                    } else {
+                        codec::encode(&Container::Xz { check: *c, block: None, filters: vec![] }, &o, data, &[]).map_err(|e| e.to_string())
+                    };
+                    match part {
+                        Ok(p) => file.extend_from_slice(&p),
+                        Err(_) => refused = true,
+                    }
+                    file.extend(std::iter::repeat(0u8).take(pad));
+                    content.extend_from_slice(data);
+                }
+                if refused {
+                    rep.add("reference_refused", 1);
+                    continue;
+                }
+                let got: Result<Vec<u8>, String> = if dir_in {
+                    match catch(|| {
+                        let mut rd = lzma_rust2::XZReader::new(file.as_slice(), true);
+                        codec::read_all(&mut rd, 1 << 16, content.len() * 2 + 1024)
+                    }) {
+                        Ok(Ok(v)) => Ok(v),
+                        Ok(Err(e)) => Err(format!("{:?}: {}", e.kind(), mc_core::run::normalise(&e.to_string()))),
+                        Err(p) => Err(format!("panic {}", p.site())),
+                    }
+                } else {
+                    refimpl::xz_decode(&file, content.len() * 2 + 1024)
+                };
+                let dirs = if dir_in { "in" } else { "out" };
+                match got {
+                    Ok(v) if v == content => rep.nontrivial(hash_desc(&desc)),
+                    Ok(v) => rep.violation(Violation::new("wrong-bytes", "concatenated streams decode to different bytes", desc.clone()).attr("dir", dirs).attr("via", "concat").detail(format!("len {} vs {}", v.len(), content.len()))),
+                    Err(e) => rep.violation(
+                        Violation::new(if dir_in { "rejected-reference-stream" } else { "reference-rejects" }, format!("concatenated streams: {e}"), desc.clone()).attr("dir", dirs).attr("via", "concat").detail(brief(&file)),
+                    ),
+                }
+            }
+        }
+    }
+    rep.extra("concat_cases", json!(concat_cases));
     rep.extra("cases", json!({"ours_to_ref": n_out, "ref_to_ours": cases.len() - n_out, "fixtures": fixture_cases, "micro_len": micro_l, "shapes": shapes.len(), "presets": presets.len(), "executables": fl.len()}));
 
     let n = cases.len();
